@@ -91,6 +91,18 @@ CHECKS.update({
                      "extended framing, payload sizes 0..64 KiB, 4 MiB in thorough, repetition runs) are played against the real "
                      "node; after every message a ping must be answered with its nonce.",
                 technique="TLA+ model checking (TLC) + spec-generated sessions replayed on the real node", note=SESS_NOTE),
+    "C02": dict(level="model_checking", engine="daa", ref="3 C02",
+                text="Daa.tla transcribes the network's 144-block rule as a case analysis (median-of-three by the network's "
+                     "swap network, signed span clamped to [72,288] blocks); SelectsMedian / SpanInRange checked by TLC over every "
+                     "timestamp pattern of the six endpoint blocks; every case (4096 in quick) is built as a real 150-header chain "
+                     "with distinct bits, on the main chain and on a fork, and the bits the real code requires are compared with "
+                     "the network's formula applied to the endpoints and span TLC selected. Plus: all 2820 real fixture headers "
+                     "with the difficulty check on; easy-target headers with wrong bits on the tip and as fork headers; "
+                     "single-field mutations of real headers with an independently predicted verdict; all 256 exponent bytes x "
+                     "mantissa classes in an isolated worker.",
+                technique="TLA+ case enumeration (TLC) + exhaustive case replay on real header chains",
+                note="Trusted: TLC; SHA-256; the harness's 256-bit formulas (network's ComputeTarget, GetBlockProof, compact "
+                     "encoding), pinned to mainnet by the fixture chains. Case chains are queried through the VerifTarget hook."),
     "C03": dict(level="model_checking", engine="split+session", ref="3 C03",
                 text="AtSplitOnlyBSV / ForeignAlwaysRefused / BSVAccepted checked by TLC on SplitGuard.tla (every order of offers "
                      "around the split height: real chain, BSV and BCH split headers, other headers at the split height on the "
@@ -201,6 +213,8 @@ def main():
              "kind_free_text": "specs/TxManager.tla, TxManagerGen.tla, TxManagerLin.tla, harness `txm` / `txmc`"},
             {"name": "session", "path": "lib/engine_session.py", "serves_properties": ["C13", "C14"],
              "kind_free_text": "specs/PeerSession.tla, PeerSessionGen.tla, harness `sess` (scripted peer over net.Pipe)"},
+            {"name": "daa", "path": "lib/prop_c02.py", "serves_properties": ["C02"],
+             "kind_free_text": "specs/Daa.tla, harness `daa` (cases / real / mutate / bits)"},
             {"name": "split+session", "path": "lib/prop_c03.py", "serves_properties": ["C03"],
              "kind_free_text": "specs/SplitGuard.tla + harness `spl`; specs/PeerSession*.tla + harness `sess`"},
             {"name": "blocksync", "path": "lib/prop_c05.py", "serves_properties": ["C05"],
